@@ -404,5 +404,15 @@ def check_threads(ctx, thorough):
                      "two threads iterating at once (schedule %s): errors %s, yielded %s" % (r0["plan"], r0["errs"], r0["yielded"]), r0)
 
 
+def replay(ctx, data):
+    """Re-run a recorded behaviour on the working tree; True if code and
+    specification still disagree."""
+    if "events" not in data.get("replay", {}):
+        return False
+    st, val = forkpool.fork_call(run_events, (data['replay']['events'],))
+    print("  ->", st, val if st != "ok" else {k: v for k, v in val.items() if k != "event"})
+    return st != "ok" or "mismatch" in val
+
+
 def main(prop, argv):
     core.main_wrapper(check, prop, argv)
